@@ -136,3 +136,31 @@ def _(c):
     E = AbstractCipher(8); M = c.bytes('M', 16); iv = c.bytes('IV', 8)
     C = c.call(mode.CBC.enc, c.call(mode.CBC, E, iv, pad.nopadding), M)
     c.ensure('canary', val.eq(C, list(iv) + spec_ecb(E, 8, list(M))))
+
+@obligation(P, 'enc-loops/step', cls='I', opaque=['absE_*', 'absD_*'], cases={'m': ['ECB', 'CBC', 'CTR'], 'bs': [8, 16]}, funcs=['crysp.mode.ECB.enc', 'crysp.mode.CBC.enc', 'crysp.mode.CTR.enc'],
+            note='inductive step of the encryption loop from an ARBITRARY state (any number of blocks already produced, any previous ciphertext block / counter value): exactly one block E(b), E(b xor previous), b xor E(counter) is appended')
+def _(c):
+    m, bs = c.case('m'), c.case('bs')
+    E = AbstractCipher(bs)
+    b = c.bytes('b', bs); prev = c.bytes('prev', bs)
+    earlier = [bytes(bs)] * 2                      # blocks produced so far: their number and contents are irrelevant to the step
+    if m == 'ECB':
+        o = mode.ECB(E); C = list(earlier)
+        ys, loc = c.loop_body(mode.ECB.enc, 0, {'self': o, 'M': None, 'C': C, 'b': b})
+        c.ensure('appended', land(len(C) == 3, val.eq(C[-1], E.E_(b)), C[:2] == earlier))
+    elif m == 'CBC':
+        o = mode.CBC(E, bytes(bs)); C = list(earlier) + [prev]
+        ys, loc = c.loop_body(mode.CBC.enc, 0, {'self': o, 'M': None, 'C': C, 'b': b})
+        c.ensure('appended', land(len(C) == 4, val.eq(C[-1], E.E_(xor(list(b), list(prev)))), val.eq(C[2], list(prev)), C[:2] == earlier))
+    else:
+        iv = c.bytes('IV', bs)
+        o = c.call(mode.CTR, E, iv); c.call(mode.DefaultCounter.reset, o.counter)
+        h = bs // 2
+        i = c.int('i', 0, (1 << (8 * h)) - 1)      # the counter has been advanced an arbitrary number of times
+        from crysp.bits import Bits
+        cnt = Bits(0, 8 * h); cnt.ival = (val.from_be(list(iv[h:])) + i) & mask(8 * h); o.counter.count = cnt
+        C = list(earlier)
+        ys, loc = c.loop_body(mode.CTR.enc, 0, {'self': o, 'M': None, 'C': C, 'b': b})
+        T = list(iv[:h]) + val.be_bytes((val.from_be(list(iv[h:])) + i) & mask(8 * h), h)
+        c.ensure('appended', land(len(C) == 3, val.eq(C[-1], xor(list(b), E.E_(T))), C[:2] == earlier))
+        c.ensure('counter-advanced', val.eq(o.counter.count.ival, (val.from_be(list(iv[h:])) + i + 1) & mask(8 * h)))
